@@ -291,6 +291,29 @@ fn families(ctx: &Ctx) {
             }
         }
     }
+    // widths around the limits of small integer types (a position or an index kept in a u8): one document,
+    // and the same children arriving over two documents
+    for n in [127usize, 128, 129, 255, 256, 257, 300] {
+        let names: Vec<String> = (1..=n).map(|i| format!("c{}", i)).collect();
+        let mut rot = names.clone();
+        rot.rotate_left(n / 2);
+        for o in [names.clone(), rot] {
+            let kid = |c: &String| format!("<{}/>", c);
+            let kids: String = o.iter().map(kid).collect();
+            let attrs: String = o.iter().map(|c| format!(" {}=\"v\"", c)).collect();
+            for xml in [format!("<r>{}</r>", kids), format!("<r><p{}/></r>", attrs)] {
+                if let Ok(d) = DocEntry::from_xml(&xml) {
+                    histories.push(vec![d]);
+                }
+            }
+            let (h1, h2) = o.split_at(n / 2);
+            let d1 = DocEntry::from_xml(&format!("<r>{}</r>", h1.iter().map(kid).collect::<String>()));
+            let d2 = DocEntry::from_xml(&format!("<r>{}</r>", h2.iter().map(kid).collect::<String>()));
+            if let (Ok(d1), Ok(d2)) = (d1, d2) {
+                histories.push(vec![d1, d2]);
+            }
+        }
+    }
     // all duplicate-free sequences over four names
     let four = ["a", "b", "c", "d"];
     let mut seqs: Vec<Vec<&str>> = vec![vec![]];
